@@ -286,9 +286,9 @@ def nodeBranches (n : Node) (inp : Edge) (out : Edge) : List String :=
       | .batch bs => bs.flatMap (fun b => buckets c.tol b.points)
     tag "combine" ((if bks.any (fun b => b.length < c.exprs.length) then ["n-lt-k"] else []) ++
       (if bks.any (fun b => b.length > c.exprs.length) then ["n-gt-k"] else []) ++
-      (if bks.any (fun b => combineGreedyMisses c b) then ["greedy-misses"] else []) ++
+      (if bks.any (fun b => combineGreedyMisses c b) then ["needs-backtracking"] else []) ++
       (if nOut > 0 then ["emit"] else []) ++ (if c.tol ≠ 0 then ["tolerance"] else []) ++
-      (if bks.any (fun b => (choose c.exprs.length b).any (fun s => (assign (combMatch c) c.exprs.length 0 s).isNone)) then ["subset-rejected"] else []) ++ common)
+      (if bks.any (fun b => (choose c.exprs.length b).any (fun s => (assignBT (combMatch c) c.exprs.length 0 s).isNone)) then ["subset-rejected"] else []) ++ common)
   | .groupBy c =>
     tag "groupBy" ((if c.all then ["star"] else ["listed"]) ++ (if c.excl ≠ [] then ["exclude"] else []) ++
       (if c.byName then ["by-measurement"] else []) ++
@@ -480,16 +480,7 @@ def judge (_id : String) (lines : Array String) : Verdict := Id.run do
     | .combine c =>
       let obsPts := match obs with | .stream ps => ps | .batch _ => []
       let (ok, _) := combineOk c inp obsPts
-      if !ok then
-        -- the recorded deviation explains it only if the greedy variant of the documented function matches exactly
-        let greedyOk := (Node.run node inp |> fun m => edgeEquivB m obs)
-        let miss := match inp with
-          | .batch bs => bs.any (fun b => (buckets c.tol b.points).any (fun bk => combineGreedyMisses c (bk.map (fun p => { p with time := roundTo p.time c.tol }))))
-          | .stream ps => (ps.map (·.gid)).eraseDups.any (fun g => (buckets c.tol ((ps.filter (fun p => p.gid = g)).map BPoint.ofPoint)).any (fun bk => combineGreedyMisses c (bk.map (fun p => { p with time := roundTo p.time c.tol }))))
-        if miss && greedyOk then
-          knownHit := some ("combine-greedy-assignment", s!"node {n.id}: a subset that admits an assignment of the lambdas was not emitted")
-        else
-          return .specfail "combine-spec" s!"node {n.id}: observed {short outToks}"
+      if !ok then return .specfail "combine-spec" s!"node {n.id}: observed {short outToks}"
     | .groupBy c =>
       match inp, obs with
       | .batch ins, .batch outs =>
